@@ -89,3 +89,17 @@ pub fn c01_quick() -> Vec<(Scenario, bool)> {
     ));
     v
 }
+
+/// C02 quick: message scenarios, pools <= 5
+pub fn c02_quick() -> Vec<(Scenario, bool)> {
+    let m = ["A", "B", "C", "Z"];
+    let ad = ["A", "B"];
+    let mut v: Vec<(Scenario, bool)> = Vec::new();
+    v.push((base("msg-bystander-race", &m, &ad, &[], vec![msg("C", "m-c0"), rename("A", "a", 10), rename("B", "b", 20)]), true));
+    v.push((base("msg-committer-race", &m, &ad, &[], vec![msg("A", "m-a0"), rename("A", "a", 10), rename("B", "b", 20)]), true));
+    v.push((base("msg-on-loser-branch", &m, &ad, &[], vec![rename("A", "a", 10), rename("B", "b", 20).then(vec![msg("B", "m-b1")])]), true));
+    v.push((base("msg-on-winner-branch", &m, &ad, &[], vec![rename("A", "a", 10).then(vec![msg("C", "m-c1")]), rename("B", "b", 20)]), true));
+    v.push((base("msg-two-same-sender", &m, &ad, &[], vec![msg("C", "m-c0"), msg("C", "m-c0b"), rename("A", "a", 10)]), true));
+    v.push((base("msg-across-commit", &m, &ad, &[], vec![msg("C", "m-c0"), rename("A", "a", 10).then(vec![msg("C", "m-c1")])]), true));
+    v
+}
